@@ -3,6 +3,8 @@ pub mod c04;
 pub mod c06;
 pub mod c07;
 pub mod c11;
+pub mod c12;
+pub mod c13;
 pub mod c20;
 pub mod tiered_hist;
 
@@ -21,6 +23,8 @@ pub const REGISTRY: &[Entry] = &[
     Entry { id: "C04", level: "exploration", main: c04::main, replay: c04::replay },
     Entry { id: "C06", level: "exploration", main: c06::main, replay: c06::replay },
     Entry { id: "C07", level: "exploration", main: c07::main, replay: c07::replay },
+    Entry { id: "C12", level: "exploration", main: c12::main, replay: c12::replay },
+    Entry { id: "C13", level: "fault_enumeration", main: c13::main, replay: c13::replay },
     Entry { id: "C20", level: "exploration", main: c20::main, replay: c20::replay },
     Entry { id: "C11", level: "exploration", main: c11::main, replay: c11::replay },
 ];
